@@ -49,3 +49,33 @@ Definition inj_on (P : oid -> Prop) (f : oid -> oid) : Prop :=
 (* numbering start, start+1, ... *)
 Fixpoint nums_from (s : N) (n : nat) : list N :=
   match n with O => [] | S k => s :: nums_from (s + 1) k end.
+
+(* ---------- references to objects that do not exist ----------
+   ISO 32000-1 7.3.10: "An indirect reference to an undefined object shall not be considered an error by a
+   conforming reader; it shall be treated as a reference to the null object."
+   [rename_o f o]: the object o with every reference id replaced by its image under f; a reference
+   without an image is written as what it denotes, the null object. *)
+Fixpoint rename_o (f : oid -> option oid) (o : obj) : obj :=
+  match o with
+  | OArr l => OArr (map (rename_o f) l)
+  | ODict d => ODict (map (fun kv => (fst kv, rename_o f (snd kv))) d)
+  | OStream d c => OStream (map (fun kv => (fst kv, rename_o f (snd kv))) d) c
+  | ORef i g => match f (i, g) with Some id' => ref_obj id' | None => ONull end
+  | _ => o
+  end.
+Definition rename_dict_o (f : oid -> option oid) (d : dict) : dict := map (fun kv => (fst kv, rename_o f (snd kv))) d.
+
+(* the renaming of the ids that name an object of m; every other id has no image *)
+Definition live (m : objmap) (rho : oid -> oid) (id : oid) : option oid :=
+  match lookup m id with Some _ => Some (rho id) | None => None end.
+
+(* what a value denotes in a document: a reference denotes the object it names, or the null object *)
+Definition denote (m : objmap) (o : obj) : obj :=
+  match o with
+  | ORef i g => match lookup m (i, g) with Some v => v | None => ONull end
+  | _ => o
+  end.
+
+(* a bookmark target (an id, not an object): renamed if it names an object, else the "no page" id np *)
+Definition live_or (m : objmap) (rho : oid -> oid) (np : oid) (p : oid) : oid :=
+  match lookup m p with Some _ => rho p | None => np end.
